@@ -103,11 +103,9 @@ func exercise(cl jwt.Claims, other jwt.Claims) string {
 		try("Account.RevokeAt", func() { x.RevokeAt("U1", time.Unix(5, 0)); x.Revoke("U2"); x.ClearRevocation("U1"); x.Revocations.MaybeCompact() })
 		try("Account.AddMapping", func() { x.AddMapping("a", jwt.WeightedMapping{Subject: "b"}) })
 		try("Account.SigningKeys.Add", func() {
-			if x.SigningKeys != nil {
-				x.SigningKeys.Add("k")
-				x.SigningKeys.AddScopedSigner(jwt.NewUserScope())
-				x.SigningKeys.Remove("k")
-			}
+			x.SigningKeys.Add("k")
+			x.SigningKeys.AddScopedSigner(jwt.NewUserScope())
+			x.SigningKeys.Remove("k")
 		})
 		try("Account.EnableExternalAuthorization", func() { x.EnableExternalAuthorization("u") })
 		try("Account.Exports.Revoke", func() {
